@@ -37,6 +37,14 @@ THEOREMS = [
     "Spydr.Compare.C20.compare_sound_contrapositive",
     "Spydr.Compare.C20.examinedEqB_iff",
     "Spydr.Compare.C20.unrepaired_accepts_moved_pin",
+    "Spydr.Compare.C20.mutation_port_raises",
+    "Spydr.Compare.C20.mutation_cable_width_raises",
+    "Spydr.Compare.C20.mutation_move_connection_raises",
+    "Spydr.Compare.C20.mutation_repoint_raises",
+    "Spydr.Compare.C20.mutation_property_raises",
+    "Spydr.Compare.C20.mutation_element_count_raises",
+    "Spydr.Compare.C20.mutation_definition_count_raises",
+    "Spydr.Compare.C20.mutation_library_count_raises",
 ]
 
 SIG_OUTER = "compare_outer_pins.same_instance_other_pin_accepted"
@@ -466,16 +474,18 @@ def _alarm(signum, frame):
 
 
 def _arm(seconds):
-    old = signal.signal(signal.SIGALRM, _alarm)
-    signal.setitimer(signal.ITIMER_REAL, seconds, 0.2)
+    """CPU-time timer (ITIMER_VIRTUAL): a non-terminating loop in the code under test burns CPU, while a
+    machine that is merely overloaded must not produce time-outs."""
+    old = signal.signal(signal.SIGVTALRM, _alarm)
+    signal.setitimer(signal.ITIMER_VIRTUAL, seconds, 0.2)
     return old
 
 
 def _disarm(old=signal.SIG_DFL):
     while True:
         try:
-            signal.setitimer(signal.ITIMER_REAL, 0, 0)
-            signal.signal(signal.SIGALRM, old if old is not None else signal.SIG_DFL)
+            signal.setitimer(signal.ITIMER_VIRTUAL, 0, 0)
+            signal.signal(signal.SIGVTALRM, old if old is not None else signal.SIG_DFL)
             return
         except _Timeout:
             continue
@@ -973,7 +983,7 @@ def evaluate(x, drv, tmpdir):
     r.x = x
     r.status = "ok"
     r.detail = ""
-    old = _arm(10)
+    old = _arm(5)
     try:
         try:
             A = build(x["a"])
@@ -1062,6 +1072,8 @@ def judge(r, sink):
         else:
             sig = "Comparer.accepts_difference." + "+".join(r.cats)
         sink.spec_failure(sig, x, "examined views differ (%s) but compare() returned" % ",".join(r.cats))
+    if x.get("copy", "rebuild") == "rebuild" and not x.get("mut") and not r.faithful:
+        sink.corr_mismatch("harness: build(cnet(A)) does not reproduce the CNetlist of A", x, None, None)
     # every mutation taken from the statement's list must be visible in the examined view (otherwise the
     # case would test nothing): harness self-check
     muts = x.get("mut", [])
@@ -1480,9 +1492,9 @@ def run(ctx):
         return
     if ctx.tier == "thorough":
         L.leanchecker(ctx, MODULES)
-    n_shards = ctx.scale(16, 48)
-    per = ctx.scale(8, 60)
-    deadline = ctx.scale(55, 900)
+    n_shards = ctx.scale(16, 32)
+    per = ctx.scale(8, 80)
+    deadline = ctx.scale(55, 540)
     args = [(ctx.seed, i, per, deadline, ctx.tier) for i in range(n_shards)]
     run_shards(ctx, shard, args)
     if ctx.corr and not ctx.spec:
